@@ -39,6 +39,14 @@ Definition check_adjacency (tol : Qc) (el : list nat) (ps : list V3) (adj : list
   | _ => false
   end.
 
+(* Species.reorder_atoms(mapping) on a species holding its perceived graph: the edges afterwards are
+   the model graph of the ORIGINAL listing relabelled old -> sigma[old] *)
+Definition check_reorder (tol : Qc) (el : list nat) (ps : list V3) (sigma : list nat) (ex : graph) : bool :=
+  match make_graph_model tol el ps with
+  | GraphOk g => edges_match (relabel (fun i => nth i sigma 0%nat) g) ex
+  | _ => false
+  end.
+
 Definition check_linear (ct : Qc) (ps : list V3) (b : bool) : bool := Bool.eqb (are_linear_model ct ps) b.
 Definition check_planar (tol : Qc) (ps : list V3) (b : bool) : bool := Bool.eqb (are_planar_model tol ps) b.
 
